@@ -97,7 +97,57 @@ pub fn search_lex(tier: &str) -> Option<Value> {
     None
 }
 
+// ---------------------------------------------------------------- yacc grammars
+fn yacc_once(src: String) -> Result<String, String> {
+    use cfgrammar::yacc::{ast::ASTWithValidityInfo, YaccKind, YaccOriginalActionKind};
+    for kind in [YaccKind::Original(YaccOriginalActionKind::GenericParseTree), YaccKind::Grmtools, YaccKind::Eco] {
+        let r = catch_unwind(AssertUnwindSafe(|| ASTWithValidityInfo::new(kind.clone(), &src)));
+        match r {
+            Err(_) => return Err(format!("panic ({:?})", kind)),
+            Ok(info) => {
+                if !info.is_valid() && info.errors().is_empty() { return Err("invalid AST without any error".into()); }
+                for e in info.errors() {
+                    let sps = cfgrammar::Spanned::spans(e);
+                    if sps.is_empty() { return Err("error without a span".into()); }
+                    for sp in sps { if !span_ok(&src, sp) { return Err(format!("error span {}..{} cannot be rendered", sp.start(), sp.end())); } }
+                }
+            }
+        }
+    }
+    Ok("ok".into())
+}
+
+pub fn run_yacc(src: &str) -> Outcome {
+    let (tx, rx) = mpsc::channel();
+    let s = src.to_string();
+    std::thread::spawn(move || { let _ = tx.send(yacc_once(s)); });
+    let expected = "a value or a non-empty list of renderable errors, promptly".to_string();
+    match rx.recv_timeout(Duration::from_millis(1500)) {
+        Ok(Ok(d)) => Outcome { fails: false, observed: d, expected },
+        Ok(Err(d)) => Outcome { fails: true, observed: d, expected },
+        Err(_) => Outcome { fails: true, observed: "no result after 1.5 s (hang)".into(), expected },
+    }
+}
+
+const YTOKS: &[&str] = &["%%", "\n", "\n", " ", "\t", "a", "B", "'x'", "\"y\"", ";", ":", "|", "%token", "%left", "%start", "%prec", "%epp", "%expect", "%avoid_insert", "%implicit_tokens", "%parse-param", "%actiontype", "{", "}", "/*", "*/", "//", "/", "*", "\\", "'", "\"", "é", "1", "::", "\r", "->", "<", ">", "%expect-unused", "%grmtools{yacckind: Grmtools}"];
+
+pub fn search_yacc(tier: &str) -> Option<Value> {
+    let n = if tier == "thorough" { 300_000 } else { 30_000 };
+    let mut st: u64 = 0xD1B54A32D192ED03;
+    let mut next = |m: usize| { st = st.wrapping_mul(6364136223846793005).wrapping_add(1442695040888963407); ((st >> 33) as usize) % m };
+    for _ in 0..n {
+        let mut s = String::new();
+        match next(3) { 0 => s.push_str("%start a\n%%\na: "), 1 => s.push_str("%token x\n"), _ => {} }
+        let l = 1 + next(10);
+        for _ in 0..l { s.push_str(YTOKS[next(YTOKS.len())]); if next(3) == 0 { s.push(' '); } }
+        let o = run_yacc(&s);
+        if o.fails { return Some(witness("c12_yacc", json!({"text": s}), &o)); }
+    }
+    None
+}
+
 pub fn search(tag: &str, tier: &str) -> Option<Value> {
+    if tag.contains(".yacc.") { return search_yacc(tier); }
     if tag.contains(".lex.") { return search_lex(tier); }
     let depth = if tier == "thorough" { 5 } else { 4 };
     // the witness should be of the kind the failed obligation is about
